@@ -2,6 +2,9 @@ package dag
 
 import (
 	"encoding/json"
+
+	"golang.org/x/sys/unix"
+
 	"os"
 	"path/filepath"
 	"strings"
@@ -228,6 +231,7 @@ func vfBuildAndCheck(def *definition, optk int) {
 			s := &d.Steps[i]
 			vfAssert(s.Name != "", "C13.wellformed/accepted-step-has-a-name")
 			vfAssert(vfRunnable(s), "C13.wellformed/accepted-step-has-something-to-execute")
+			vfAssert(s.SignalOnStop == "" || unix.SignalNum(s.SignalOnStop) != 0, "C13.wellformed/accepted-signal-name-is-valid")
 			_, jerr := json.Marshal(s)
 			if jerr != nil {
 				vfClass("executor-config-not-json-serialisable")
